@@ -38,6 +38,13 @@ ASSUMPTIONS = [
     "C18_crash_consistent: for all trees, selections and ALL crash points (unbounded, induction over the trace), "
     "under: nothing exists below backups/<name> beforehand, selected files are not inside it, name components "
     "non-empty, not '.', no '/', code points >= 32",
+    "the file-system model carries NO metadata (size is the content's length, no time stamps) and the modelled "
+    "restore_backup copies every selected recorded file unconditionally; C18_restore_identical / "
+    "C18_restore_selected_from_backup / C18_restore_history_independent are therefore statements about content under "
+    "unconditional copying.  A restore that consults size / mtime to decide what to copy is not this program: that is "
+    "tied by the restore effect-trace correspondence (the real restore must perform exactly the model's mkdir/copy "
+    "effects: one copy per selected recorded file) and searched on the implementation by same-size in-place edits "
+    "whose atime/mtime are reset to the pre-edit values, to the backup copy's values, or back-dated",
     "C18_restore_identical / C18_remodel_idempotent / C18_remodel_from_backup are stated for runs that complete "
     "(a restore or remodel aborted by an OS error is outside the statement); the backup record seen by the "
     "second remodel run is taken equal to the first (the run provably never writes below backups/<name>)",
@@ -51,7 +58,9 @@ ASSUMPTIONS = [
 
 TS = "2026-01-02 03:04:05.678901"
 OPS = [{"operation": "rename_columns", "description": "rename",
-        "parameters": {"column_mapping": {"trial_type": "tt"}, "ignore_missing": True}}]
+        # deliberately NOT idempotent as a table transformation (a second application renames again), so a run
+        # that starts from anything but the backed-up original shows up in the twice-equals-once clause
+        "parameters": {"column_mapping": {"trial_type": "tt", "duration": "trial_type"}, "ignore_missing": True}}]
 REL_BACKUPS = ("derivatives", "remodel", "backups")
 
 
@@ -383,6 +392,25 @@ def compute_op(content, base):
     return out
 
 
+def same_size_edit(data, how, k):
+    """A different byte string of the same length (None when there is none of this kind)."""
+    n = len(data)
+    if n == 0:
+        return None
+    b = bytearray(data)
+    if how == "swap":
+        pairs = [(i, j) for i in range(n) for j in range(i + 1, min(n, i + 12)) if b[i] != b[j]]
+        if not pairs:
+            return None
+        i, j = pairs[k % len(pairs)]
+        b[i], b[j] = b[j], b[i]
+    elif how == "flip":
+        b[k % n] ^= 1
+    else:  # rot
+        b = b[1:] + b[:1]
+    return bytes(b) if bytes(b) != data else None
+
+
 def task_match(tasks, key):
     """The statement's 'requested tasks' as the code implements the marker: task_<name> in the base name."""
     base = key.rsplit("/", 1)[-1]
@@ -445,11 +473,43 @@ def real_hist(scn):
                     if os.path.isfile(p):
                         os.remove(p)
                     res = ["ok"]
+                elif st["op"] == "edit":
+                    # same-size in-place edit; the file's metadata afterwards is what a metadata-preserving
+                    # tool (cp -p, rsync -t, touch -r, an edit within one clock tick) leaves behind
+                    p = os.path.join(root, st["path"])
+                    rec["data"] = None
+                    if os.path.isfile(p):
+                        with builtins.open(p, "rb") as f:
+                            data = f.read()
+                        new = same_size_edit(data, st["how"], st.get("k", 0))
+                        if new is not None:
+                            stt = os.stat(p)
+                            with builtins.open(p, "r+b") as f:
+                                f.write(new)
+                            if st["meta"] == "keep":
+                                os.utime(p, ns=(stt.st_atime_ns, stt.st_mtime_ns))
+                            elif st["meta"] == "backup":
+                                cands = [os.path.join(root, *REL_BACKUPS, nm_, "backup_root", st["path"]) for nm_ in originals]
+                                cands = [c for c in cands if os.path.isfile(c)]
+                                ref = os.stat(cands[0]) if cands else stt
+                                os.utime(p, ns=(ref.st_atime_ns, ref.st_mtime_ns))
+                            elif st["meta"] == "old":
+                                os.utime(p, ns=(stt.st_atime_ns, stt.st_mtime_ns - 3600 * 10 ** 9))
+                            rec["data"] = b2s(new)
+                    res = ["ok"]
                 elif st["op"] == "restore":
-                    if st.get("via") == "cli":
-                        run_remodel_restore.main([root, "-bn", st["name"]] + (["-t"] + st["tasks"] if st["tasks"] else []))
-                    else:
-                        BackupManager(root).restore_backup(st["name"], st["tasks"], verbose=False)
+                    try:
+                        BackupManager(root)          # the constructor's own mkdirs are not part of the restore trace
+                    except Exception:  # noqa
+                        pass
+                    with Instr(root) as ins:
+                        try:
+                            if st.get("via") == "cli":
+                                run_remodel_restore.main([root, "-bn", st["name"]] + (["-t"] + st["tasks"] if st["tasks"] else []))
+                            else:
+                                BackupManager(root).restore_backup(st["name"], st["tasks"], verbose=False)
+                        finally:
+                            rec["trace"] = ins.trace
                     res = ["ok"]
                 elif st["op"] == "remodel":
                     captured = {}
@@ -531,7 +591,7 @@ def real_hist(scn):
                         if o_ is not None:
                             tbl[c_] = o_
                 rec["optable"] = [[k, v] for k, v in tbl.items()]
-            if st["op"] in ("restore", "remodel", "write", "delete", "list"):
+            if st["op"] in ("restore", "remodel", "write", "delete", "list", "edit"):
                 bchanged = {p for p in changed if p.startswith(bdir + "/")}
                 if bchanged:
                     out["violations"].append(["backup-immutable", si, f"{st['op']} changed {sorted(bchanged)[:3]}", None])
@@ -602,6 +662,8 @@ def hist_request(scn, real):
             steps.append(["write", P(st["path"]), C.cps(st["data"])])
         elif op == "delete":
             steps.append(["delete", P(st["path"])])
+        elif op == "edit":
+            steps.append(["write", P(st["path"]), C.cps(rec["data"])] if rec.get("data") is not None else ["nop"])
         elif op == "restore":
             steps.append(["restore", C.cps(st["name"]), [C.cps(t) for t in st["tasks"]]])
         elif op == "remodel":
@@ -653,7 +715,17 @@ def compare_hist(scn, real, m):
     if m and m[0] == "ERR":
         return [f"model driver: {m}"]
     for si, (st, rec, mr) in enumerate(zip(scn["steps"], real["steps"], m)):
-        mres, mstate = mr
+        mres, mstate = mr[0], mr[1]
+        if st["op"] == "restore" and "trace" in rec:
+            # restore copies every selected recorded file, unconditionally (the model has no metadata)
+            mtrace = []
+            for e in mr[2]:
+                if e[0] == "mkdir":
+                    mtrace.append(["mkdir", "/".join(C.uncps(c) for c in e[1])])
+                elif e[0] == "copy":
+                    mtrace.append(["copy", "/".join(C.uncps(c) for c in e[1]), "/".join(C.uncps(c) for c in e[2])])
+            if mtrace != rec["trace"]:
+                out.append(f"step {si} restore effect trace: impl={rec['trace']} model={mtrace}")
         rr = rec["result"]
         if st["op"] in ("list",):
             mo = ["exn", mres[1]] if mres[0] == "exn" else ["ok", mgr_of(mres[1])]
@@ -798,10 +870,17 @@ def gen_hist(rng, i):
                 p = (d + "/" if d else "") + rng.choice(["new_task-go_events.tsv", "new.txt", "n_task_x_events.tsv"])
             steps.append({"op": "write", "path": p, "data": rng.choice([gen_blob(rng), gen_tsv(rng), "MODIFIED\n"])})
             live.add(p)
-        elif x < 0.45 and live:
+        elif x < 0.40 and live:
             p = rng.choice(sorted(live))
             steps.append({"op": "delete", "path": p})
             live.discard(p)
+        elif x < 0.52 and live:
+            cand = sorted(set(sel) & live) or sorted(live)
+            steps.append({"op": "edit", "path": rng.choice(cand), "how": rng.choice(["swap", "swap", "flip", "rot"]),
+                          "k": rng.randrange(1000), "meta": rng.choice(["keep", "keep", "backup", "new", "old"])})
+            if rng.random() < 0.6:
+                steps.append({"op": "restore", "name": name, "tasks": [], "via": rng.choice(["api", "cli"])})
+                live |= set(sel)
         elif x < 0.7:
             steps.append({"op": "restore", "name": name if rng.random() < 0.85 else rng.choice(["nope", name + "/"]),
                           "tasks": rng.choice([[], [], ["go"], ["x", "go"], ["stop"], [""]]),
@@ -853,6 +932,20 @@ CORPUS = [
     {"kind": "crash", "tree": {"a.txt": "xyz", "d": None, "d/b.bin": "\x00\xff"}, "files": ["a.txt", "d/b.bin"],
      "name": "b1/", "pre": [], "all_k": True},
     {"kind": "crash", "tree": {"a.txt": "xyz"}, "files": ["a.txt"], "name": "./b1", "pre": [{"name": "b1", "files": ["a.txt"]}]},
+    # same-size edits that keep (or are given) the backup copy's time stamp are restored like any other edit
+    {"kind": "hist", "tree": {"sub1": None, "sub1/sub1_events.tsv": "onset\tduration\ttrial_type\n1.0\t0.5\tgo\n2.0\t0.5\tstop\n",
+                              "top_events.tsv": "onset\tduration\n9.0\t1.0\n"},
+     "steps": [{"op": "create", "files": ["sub1/sub1_events.tsv", "top_events.tsv"], "name": "back1"},
+               {"op": "edit", "path": "sub1/sub1_events.tsv", "how": "swap", "k": 40, "meta": "keep"},
+               {"op": "restore", "name": "back1", "tasks": [], "via": "api"},
+               {"op": "edit", "path": "top_events.tsv", "how": "flip", "k": 3, "meta": "keep"},
+               {"op": "restore", "name": "back1", "tasks": [], "via": "cli"},
+               {"op": "write", "path": "top_events.tsv", "data": "x"},
+               {"op": "edit", "path": "top_events.tsv", "how": "rot", "k": 0, "meta": "backup"},
+               {"op": "edit", "path": "sub1/sub1_events.tsv", "how": "rot", "k": 0, "meta": "backup"},
+               {"op": "restore", "name": "back1", "tasks": [], "via": "api"},
+               {"op": "restore", "name": "back1", "tasks": [], "via": "api"},
+               {"op": "list"}]},
     # the Coq non-vacuity instance, every crash point and every byte of every partial write
     {"kind": "crash", "tree": {"sub": None, "sub/a_task_x.t": "\x01\x02\x03", 'c"\\': "\x07"},
      "files": ["sub/a_task_x.t", 'c"\\'], "name": "b1", "all_k": True, "pre": []},
@@ -957,7 +1050,7 @@ def run(tier, seed, res, model_ok=True, proof_ok=True):
         mod = False
         for st, rec in zip(scn.get("steps", []), r.get("steps", [])):
             kinds[st["op"]] = kinds.get(st["op"], 0) + 1
-            if st["op"] in ("write", "delete"):
+            if st["op"] in ("write", "delete", "edit"):
                 mod = True
             if st["op"] in ("restore", "remodel") and mod:
                 key = (json.dumps(scn, sort_keys=True), len(seen))
